@@ -698,11 +698,22 @@ def shrink(ctx, script, fails):
 
 
 def project(lines, keep):
-    return [l for l in lines if keep(l)]
+    """the lines compared between implementation and model; consecutive writes on one connection count as one"""
+    out = []
+    for l in lines:
+        if not keep(l):
+            continue
+        if l.startswith("ev w ") and out and out[-1].startswith("ev w "):
+            a, b = out[-1].split(), l.split()
+            if len(a) == 4 and len(b) == 4 and a[2] == b[2]:
+                out[-1] = "ev w %s %s" % (a[2], a[3] + b[3])
+                continue
+        out.append(l)
+    return out
 
 
 def run_property(ctx, module, profile, n_quick, n_thorough, monitors, keep, length=(8, 30), extra=None, sig_prefix=None,
-                 drain=False, drain_monitors=None, verdict=None):
+                 drain=False, drain_monitors=None, verdict=None, transform=None, corpus=True):
     """Returns the Verdict-filled result. `monitors`: list of callables(trace, script)->[(sig, what)].
     `keep`: projection predicate on output lines for the differential comparison."""
     prop = ctx.prop
@@ -722,7 +733,7 @@ def run_property(ctx, module, profile, n_quick, n_thorough, monitors, keep, leng
     if b.get("pinned_facts"):
         v.broken_tie("the model no longer compiles against the regenerated facts; searching with the committed facts", {})
     scripts = []
-    for name, sc in corpus_scripts():
+    for name, sc in (corpus_scripts() if corpus else []):
         scripts.append(sc)
         stats["corpus"] += 1
     for sc in (extra or []):
@@ -731,6 +742,8 @@ def run_property(ctx, module, profile, n_quick, n_thorough, monitors, keep, leng
     n = n_quick if ctx.quick() else n_thorough
     for _ in range(n):
         scripts.append(g.script())
+    if transform:
+        scripts = [transform(sc) for sc in scripts]
     drained = {}
     bases = {}
     if drain:
